@@ -1726,7 +1726,8 @@ def angular_separation(alpha1, delta1, alpha2, delta2):
     # Let's define an auxiliary function
     def hav(theta):
         """Function to compute the haversine (hav)"""
-        return (1.0 - cos(theta)) / 2.0
+        # NOTE: '(1 - cos(theta))/2' loses all precision for small angles
+        return sin(theta / 2.0) ** 2
 
     # First check that input values are of correct types
     if not (
